@@ -158,9 +158,25 @@ Complete(S, e) ==
                                     !.arrived = [q \in Reqs |-> @[q] \/ \E i \in DOMAIN e.msgs : q \in GoodFor(S, e.msgs[i])],
                                     !.early = [q \in Reqs |-> @[q] \/ \E i \in DOMAIN e.msgs : q \in EarlyFor(S, e.msgs[i])]]
                 IN IF e.junk THEN SetErr(S1, {r}, <<"neterr", 0>>) ELSE S1
+(* the HTTP output stage is the TCP one, except that handing the exchange to the transfer library may fail (openm = "fail" stands for a failing *)
+(* curl_multi_add_handle): everything still queued -- the request at hand included -- then fails with a network error                             *)
+RECURSIVE OutputHttp(_)
+OutputHttp(S) ==
+    IF S.sendq = <<>> THEN [s |-> S, failed |-> FALSE]
+    ELSE LET r  == Head(S.sendq)
+             S0 == IF clock - S.rStart >= 1 THEN [S EXCEPT !.rCount = 0, !.rStart = clock] ELSE S
+         IN IF S0.rCount >= MaxReq THEN [s |-> S0, failed |-> FALSE]
+            ELSE IF S0.st[r] # "queued" THEN OutputHttp([S0 EXCEPT !.sendq = Tail(@)])
+            ELSE IF SndTo = 0 \/ clock - addT[r] > SndTo
+                   THEN OutputHttp(SetErr([S0 EXCEPT !.sendq = Tail(@)], {r}, <<"sndto", 0>>))
+            ELSE IF openm = "fail" THEN [s |-> ClearQ(S0, <<"neterr", 0>>), failed |-> TRUE]
+                   ELSE OutputHttp([S0 EXCEPT !.sendq = Tail(@), !.st[r] = "sent", !.sndT[r] = clock, !.rCount = @ + 1])
 RECURSIVE CompleteAll(_, _)
 CompleteAll(S, es) == IF es = <<>> THEN S ELSE CompleteAll(Complete(S, Head(es)), Tail(es))
-DispatchHttp(S) == [s |-> [CompleteAll(Output([S EXCEPT !.wire = <<>>]), S.wire) EXCEPT !.wire = <<>>], closed |-> FALSE]
+DispatchHttp(S) == LET o == OutputHttp([S EXCEPT !.wire = <<>>]) IN
+                   \* after a failed hand-over the round ends at once: completed exchanges are looked at in the next one
+                   IF o.failed THEN [s |-> [o.s EXCEPT !.wire = S.wire], closed |-> FALSE]
+                               ELSE [s |-> [CompleteAll(o.s, S.wire) EXCEPT !.wire = <<>>], closed |-> FALSE]
 
 (* net_async.c:1143-1286 -- process the response queue in arrival order *)
 Owner(S, m) == {r \in Reqs : S.st[r] \in Live /\ id[r] = m.id}
